@@ -54,7 +54,8 @@ class DiagX(SDEFunction):
         super().__init__(m=dimension, d=dimension)
 
     def __call__(self, t: float, x: np.array) -> np.array:
-        return np.diag(x)
+        # x is the state as a column (m, 1), or the stacked fine/coarse states (2, m, 1)
+        return x * np.eye(self.shape[0])
 
 
 class LiborSDEFunction(SDEFunction):
